@@ -18,6 +18,7 @@ import (
 	"fmt"
 	"iter"
 	"math"
+	"os"
 	"testing"
 	"time"
 
@@ -40,6 +41,9 @@ type Case struct {
 	M    []MatcherSpec `json:"m"`
 	QMin int64         `json:"qmin"`
 	QMax int64         `json:"qmax"`
+	// Sel, when set, makes this a case of the selector part (sel_test.go): the proxy runs with a TSDB
+	// selector over the listed real stores instead of the recording fakes of the main part.
+	Sel *SelSpec `json:"sel,omitempty"`
 }
 
 var (
@@ -219,16 +223,42 @@ func TestCheck(t *testing.T) {
 		"proxy selector labels, TSDBSelector relabelling, the store-debug-matcher context value and Client.Matches filters are configuration-driven exclusions, not pruning by advertisement; they are left at their defaults (empty / no-op / true)",
 		"fake clients model LabelSets()/TimeRange() verbatim; transformations done by pkg/query endpointRef before the proxy sees them are out of scope")
 
-	vlib.ForEach(r, gen(r, rgs), func(c Case) {
+	main := gen(r, rgs)
+	sel := selGen(r, cfgs, vlib.Pick(r, 3, 4))
+	only := os.Getenv("VERIF_C05_ONLY") // diagnosis only: "sel" or "main" runs one part
+	both := func(yield func(Case) bool) {
+		// the selector part is the smaller one: it goes first so that a slow machine cuts the larger part
+		for c := range sel {
+			if only == "main" {
+				break
+			}
+			if !yield(c) {
+				return
+			}
+		}
+		for c := range main {
+			if only == "sel" {
+				break
+			}
+			if !yield(c) {
+				return
+			}
+		}
+	}
+	vlib.ForEach(r, both, func(c Case) {
 		r.Sample(c)
 		var pm []*labels.Matcher
 		var sm []storepb.LabelMatcher
 		for _, m := range c.M {
 			if m.T < 0 || m.T > 3 {
-				t.Fatalf("HARNESS-ERROR bad matcher type %d", m.T)
+				panic(fmt.Sprintf("HARNESS-ERROR bad matcher type %d", m.T))
 			}
 			pm = append(pm, labels.MustNewMatcher(promTypes[m.T], m.N, m.V))
 			sm = append(sm, storepb.LabelMatcher{Type: storepb.LabelMatcher_Type(m.T), Name: m.N, Value: m.V})
+		}
+		if c.Sel != nil {
+			evalSel(r, c, pm, sm)
+			return
 		}
 		fakes := make([]*fakeClient, 0, len(cfgs)*len(rgs))
 		clients := make([]store.Client, 0, len(cfgs)*len(rgs))
@@ -241,7 +271,7 @@ func TestCheck(t *testing.T) {
 		}
 		p := store.NewProxyStore(nil, nil, func() []store.Client { return clients }, component.Query, labels.EmptyLabels(), 0*time.Second, store.EagerRetrieval)
 		srv := &collectServer{ctx: context.Background()}
-		err := p.Series(&storepb.SeriesRequest{MinTime: c.QMin, MaxTime: c.QMax, Matchers: sm}, srv)
+		err := seriesRecover(p, &storepb.SeriesRequest{MinTime: c.QMin, MaxTime: c.QMax, Matchers: sm}, srv)
 		if err != nil {
 			// every enumerated request is well-formed: the proxy must evaluate it.
 			r.Violation("valid-request-rejected", fmt.Sprintf("Series returned %v", err), c)
